@@ -1443,14 +1443,66 @@ class ModuleScope(VhdlScope):
         "xnor",
         "xor",
         "default",
+        # additional reserved words of VHDL-2008
+        "assume",
+        "assume_guarantee",
+        "context",
+        "cover",
+        "fairness",
+        "force",
+        "parameter",
+        "property",
+        "protected",
+        "release",
+        "restrict",
+        "restrict_guarantee",
+        "sequence",
+        "strong",
+        "vmode",
+        "vprop",
+        "vunit",
     }
 
+    # predefined names, the generated code relies on
+    # (user defined objects with these names would hide them)
     _additional_reserved = {
         "std_logic",
+        "std_ulogic",
         "std_logic_vector",
+        "std_ulogic_vector",
         "signed",
         "unsigned",
         "resize",
+        "boolean",
+        "integer",
+        "natural",
+        "positive",
+        "string",
+        "bit",
+        "bit_vector",
+        "character",
+        "real",
+        "time",
+        "severity_level",
+        "true",
+        "false",
+        "note",
+        "warning",
+        "error",
+        "failure",
+        "to_integer",
+        "to_unsigned",
+        "to_signed",
+        "shift_left",
+        "shift_right",
+        "rising_edge",
+        "falling_edge",
+        "cohdl_bool_to_std_logic",
+        "ieee",
+        "std",
+        "work",
+        "std_logic_1164",
+        "numeric_std",
     }
 
     def __init__(self, *, additional_reserved_names: set[str] = None):
